@@ -43,6 +43,9 @@ fn main() {
         let seed: u64 = args.get(4).and_then(|s| s.parse().ok()).unwrap_or(0);
         std::process::exit(vh::net::c06n::child_main(tier, seed, &args[5], &args[6]));
     }
+    if args[2] == "--massreg-child" {
+        std::process::exit(vh::router::massreg::child_main(args.get(3).map(|s| s.as_str()).unwrap_or("")));
+    }
     if args[2] == "--replay" {
         let path = args.get(3).unwrap_or_else(|| usage());
         if path.ends_with(".bin") || !path.ends_with(".json") {
@@ -73,7 +76,7 @@ fn main() {
         "C01" => { vh::router::props::c01(&mut ctx); if !ctx.failed() { vh::net::c07s::run(&mut ctx, false, true); } if !ctx.failed() { vh::net::c01n::run(&mut ctx); } if !ctx.failed() { vh::net::c01f::run(&mut ctx); } ctx.rule.push_str("; leg first-registrations-loopback: 1-16 brand-new topics, each registered at the same instant by 2-3 peers on different connections (pub+sub, sub+sub+pub, pub+pub+sub, requestor+replier) against the real server on a multi-thread runtime: all are answered Ok, so each subscriber must receive what each publisher sends and the requestor must be answered"); }
         "C02" => { vh::router::props::c02(&mut ctx); if !ctx.failed() { vh::net::c02n::run(&mut ctx); } }
         "C08" => vh::router::props::c08(&mut ctx),
-        "C09" => { vh::router::props::c09(&mut ctx); if !ctx.failed() { vh::net::c09n::run(&mut ctx); } }
+        "C09" => { vh::router::props::c09(&mut ctx); if !ctx.failed() { vh::net::c09n::run(&mut ctx); } if !ctx.failed() { vh::router::massreg::run(&mut ctx, "C09"); } ctx.rule.push_str("; leg registration-queue-drain (child process): draining a queue of up to 40000 registrations in one step is bounded work on a 2 MiB stack"); }
         "C10" => { vh::router::props::c10(&mut ctx); if !ctx.failed() { vh::net::c10c::run(&mut ctx); } }
         "C03" => vh::net::c03::run(&mut ctx),
         "C04" => { vh::net::c04::run(&mut ctx); if !ctx.failed() { vh::net::c12r::run(&mut ctx, "calls-after-real-outage", true); } ctx.rule.push_str("; leg calls-after-real-outage: the requestor reaches the real server through a UDP relay that is black-holed for 16-19 s (both ends give the connection up), then 1-2 clones and the original issue concurrent calls against a wire-level replier that answers in reverse order: every call must return its own reply"); }
@@ -86,7 +89,7 @@ fn main() {
         "C14" => vh::pure::c14::run(&mut ctx),
         "C15" => vh::net::c15::run(&mut ctx),
         "C16" => { vh::router::props::c16(&mut ctx); if !ctx.failed() { vh::net::c16n::run(&mut ctx); } }
-        "C17" => vh::net::c17::run(&mut ctx),
+        "C17" => { vh::net::c17::run(&mut ctx); if !ctx.failed() { vh::router::massreg::run(&mut ctx, "C17"); } ctx.rule.push_str("; leg registration-queue-drain (child process): a router that has been stuck finds 1-40000 registrations queued (each through a sender of its own, as the waiting handle_stream tasks have) and is then polled on a thread with a tokio worker's 2 MiB stack; the process must survive and every queued peer must be served"); }
         _ => { eprintln!("unknown property {id}"); std::process::exit(2) }
     }
     std::process::exit(ctx.finish());
@@ -105,6 +108,7 @@ fn replay(id: &'static str, leg: &str, case: &serde_json::Value) -> i32 {
     if id == "C06" && leg == "e2e-subscriber" { return vh::net::c06n::replay(id, case); }
     if id == "C06" { return vh::pure::c06::replay(id, case); }
     if id == "C11" && leg == "stream-scripts" { return vh::net::c11::replay(id, case); }
+    if leg == "registration-queue-drain" { return vh::router::massreg::replay(id, case); }
     if id == "C17" { return vh::net::c17::replay(id, case); }
     if id == "C15" { return vh::net::c15::replay(id, case); }
     if id == "C10" && leg == "client-repliers" { return vh::net::c10c::replay(id, case); }
@@ -113,6 +117,7 @@ fn replay(id: &'static str, leg: &str, case: &serde_json::Value) -> i32 {
     if id == "C09" && leg == "idle-cpu-loopback" { return vh::net::c09n::replay(id, case); }
     if id == "C16" && leg == "sigint-loopback" { return vh::net::c16n::replay(id, case); }
     if id == "C16" && leg == "ps-close-during-poll" { return vh::core::replay_case::<vh::router::closepoll::Case>(id, case, 4, vh::router::closepoll::run_case); }
+    if id == "C16" && leg == "rr-close-during-poll" { return vh::core::replay_case::<vh::router::closepoll::Case>(id, case, 4, vh::router::closepoll::run_case_rr); }
     if id == "C02" && leg == "backpressure-loopback" { return vh::net::c02n::replay(id, case); }
     if id == "C12" { return vh::net::c12::replay(id, case); }
     if id == "C13" { return vh::pure::c13::replay(id, case); }
